@@ -170,6 +170,17 @@ pub fn case_strategy() -> impl Strategy<Value = CardCase> {
         2 => proptest::collection::vec(any::<u8>(), 4..=7).prop_map(|b| hex(&b)),
         2 => (proptest::collection::vec(any::<u8>(), 1..=7), 1usize..8).prop_map(|(b, z)| { let mut v = vec![0u8; z]; v.extend(b); hex(&v) }),
         1 => (proptest::collection::vec(any::<u8>(), 4..=4), 0usize..8).prop_map(|(b, z)| { let mut v = vec![0xabu8; z]; v.extend([0, 0, 0]); v.extend(b); hex(&v) }),
+        // zero-heavy UIDs: runs of zero digits anywhere, byte- or nibble-aligned
+        3 => proptest::collection::vec(prop_oneof![3 => Just(0u8), 1 => (0u8..16), 1 => (0u8..16).prop_map(|x| x << 4), 2 => any::<u8>()], 0..=20).prop_map(|b| hex(&b)),
+        // six zero digits planted at every digit offset around and inside the 14-digit tail of a long UID
+        2 => (proptest::collection::vec(1u8..=255, 8..=20), 0usize..=22, 5usize..=7).prop_map(|(b, k, run)| {
+            let mut d: Vec<u8> = hex(&b).into_bytes();
+            let start = (d.len() + 6).saturating_sub(14 + 6 + 2) + k; // from two digits before the cut to the end
+            for x in d.iter_mut().skip(start.min(40)).take(run) {
+                *x = b'0';
+            }
+            String::from_utf8(d).unwrap()
+        }),
         1 => proptest::sample::select(vec!["000000000000081ca72f".to_string(), "00000000000008b3c880".to_string(), "0000000463c8b2ae4f80".to_string()]),
     ];
     let sub = (proptest::option::weighted(0.6, hexs(5..=10)), proptest::option::weighted(0.4, hexs(2..=2))).prop_map(|(app, card_type)| SubSpec { app, card_type });
@@ -210,6 +221,11 @@ pub fn run(tier: Tier) -> i32 {
             st.case(long_uid || both, fnv(&serde_json::to_vec(c).unwrap()));
             if long_uid {
                 st.class("uid>7-bytes");
+                let u = c.uid.as_ref().unwrap();
+                let tail = &u[u.len() - 14..];
+                if tail[1..].contains("000000") {
+                    st.class("uid>7-bytes:000000-inside-the-tail-not-at-its-start");
+                }
             }
             if both {
                 st.class("uid-and-application-list");
@@ -230,7 +246,7 @@ pub fn run(tier: Tier) -> i32 {
     stats.exhaustive_parts = vec!["all 256 abort codes".into()];
     ctx.finish(
         stats,
-        "proptest status-information replies built by the reference encoder: UID absent / 0..20 bytes (biased to <= 7 bytes, leading zero bytes, 000000 after the cut, the captured UIDs), application entries directly (tag 60) and in the 62 container with/without application id, unrelated TLV fields, 0..5 preceding intermediate statuses, aborts (all 256 codes once). Oracle: first direct entry has an application id => Bank; no entries and a UID => MembershipCard(canon(uid)); neither => error; never Membership when any listed entry carries an application id, never Bank when none does, membership id always canon(uid); same result on a second presentation and under changed intermediates / unrelated fields; abort 0x6c => NoCardPresented, other aborts => another error. non-trivial = UID longer than 7 bytes, or both a UID and an application list; distinct by case",
+        "proptest status-information replies built by the reference encoder: UID absent / 0..20 bytes (biased to <= 7 bytes, leading zero bytes, 000000 after the cut, zero-heavy alphabets, runs of 5..7 zero digits planted at every digit offset around and inside the 14-digit tail, the captured UIDs), application entries directly (tag 60) and in the 62 container with/without application id, unrelated TLV fields, 0..5 preceding intermediate statuses, aborts (all 256 codes once). Oracle: first direct entry has an application id => Bank; no entries and a UID => MembershipCard(canon(uid)); neither => error; never Membership when any listed entry carries an application id, never Bank when none does, membership id always canon(uid); same result on a second presentation and under changed intermediates / unrelated fields; abort 0x6c => NoCardPresented, other aborts => another error. non-trivial = UID longer than 7 bytes, or both a UID and an application list; distinct by case",
         &["for entries without application id in first position the statement leaves the outcome open (never-clauses only)", "canon() is my own transcription of the canonical form in the property"],
         false,
     )
